@@ -266,6 +266,8 @@ class FuncSpec:
         self.modifies = None        # None = unspecified (pure for contract calls means nothing modified)
         self.loops = {}
         self.params = {}            # path -> FuncSpec (kind param)
+        self.sends = {}             # channel path -> FuncSpec (contract of a send on that channel)
+        self.closes = {}            # channel path -> FuncSpec (contract of close(ch))
         self.ghost = []             # (name, sort)
         self.inline = set()
         self.nonnil = []
@@ -375,7 +377,7 @@ def logical_lines(path, go_file):
 KEYWORDS = ('func', 'iface', 'assume', 'spec', 'lemma', 'axiom', 'const', 'arith', 'ghost', 'requires', 'ensures',
             'modifies', 'nonnil', 'loop', 'invariant', 'decreases', 'param', 'inline', 'assert-call', 'trusted',
             'args', 'results', 'report', 'using', 'flag', 'pure', 'import', 'assert-at', 'owns', 'fork',
-            'deterministic', 'guarded')
+            'deterministic', 'guarded', 'send', 'closes')
 
 
 def join_continuations(raw):
@@ -402,6 +404,7 @@ def parse_file(path, specs, pkgpath=None, go_file=True, allow_assume=False):
     cur = None          # current FuncSpec
     cur_top = None
     cur_loop = None
+    sub_indent = 0
     src = path
     for ln, indent, text in lines:
         kw, _, rest = text.partition(' ')
@@ -480,6 +483,8 @@ def parse_file(path, specs, pkgpath=None, go_file=True, allow_assume=False):
                 continue
             if cur is None:
                 raise ParseError('clause outside of a declaration: ' + text)
+            if cur is not cur_top and indent <= sub_indent:
+                cur = cur_top          # a clause indented like the `param` line belongs to the function again
             if kw == 'arith':
                 cur_top.arith = rest
             elif kw == 'ghost':
@@ -504,6 +509,7 @@ def parse_file(path, specs, pkgpath=None, go_file=True, allow_assume=False):
                 n = int(rest.rstrip(':'))
                 cur = cur_top
                 cur_loop = cur_top.loops.setdefault(n, LoopSpec(n))
+                loop_indent = indent
             elif kw == 'invariant':
                 if cur_loop is None:
                     raise ParseError('invariant outside loop')
@@ -520,6 +526,14 @@ def parse_file(path, specs, pkgpath=None, go_file=True, allow_assume=False):
                 cur_top.params[path_] = ps
                 cur = ps
                 cur_loop = None
+                sub_indent = indent
+            elif kw == 'send' or kw == 'closes':
+                path_ = rest.rstrip(':').strip()
+                ps = FuncSpec(('send ' if kw == 'send' else 'close ') + path_, 'param', src=where)
+                (cur_top.sends if kw == 'send' else cur_top.closes)[path_] = ps
+                cur = ps
+                cur_loop = None
+                sub_indent = indent
             elif kw == 'args':
                 cur.args = [x.strip() for x in rest.split(',') if x.strip()]
             elif kw == 'results':
